@@ -19,20 +19,36 @@ def check(prog, res, tier):
         'key index 0-9 and PINs of 4-12 digits: it must be 11 PAN digits (check digit excluded) ++ key index ++ the leftmost '
         'four PIN digits, 16 hex digits in total (one DES block).  Sibling constants of the two decimalisation passes, '
         'argument wiring of to_pvv and the cipher API table are checked structurally.  No numeric value is decided.')
-    tfi = prog.func('pinblock._get_tsp')
+    pvv_fi = prog.func('pinblock.calculate_pvv')
+    tfi = prog.func('pinblock._get_tsp') if prog.has_func('pinblock._get_tsp') else pvv_fi
 
     def entry_t(it):
         card = it.sym_str('card_number', lo=13, hi=19, charset='digits')
         ki = it.sym_int('key_table_index', 0, 9)
         pin = it.sym_str('pin', lo=4, hi=12, charset='digits')
+        key = it.sym_str('pvv_key', lo=32, hi=32, charset='hex')
         it.user.update(card=card, ki=ki, pin=pin)
-        return it.call_function(tfi, [card, ki, pin], {})
+        it.call_function(pvv_fi, [pin, key, ki, card], {})
+        return None
+
+    def tsp_of(p):
+        """the value handed to unhexlify that is built from the card number: the TSP"""
+        card = p.interp.user['card'].segs[0].src
+        for e in p.events:
+            if e.kind == 'ext-call' and e.data['callee'] in ('binascii.unhexlify', 'binascii.a2b_hex') and e.data['args']:
+                a = p.interp.resolve(e.data['args'][0])
+                if isinstance(a, SeqV) and any(isinstance(g, Sl) and g.src is card for g in a.segs):
+                    return a
+        return None
     runs_t = Runs(prog, entry_t, res=res)
 
     def chk_t(p, mode):
-        if p.outcome != 'return':
-            return [definite(f'_get_tsp raises {p.value!r}')]
-        v = p.value
+        if p.outcome == 'loopback':
+            return []
+        v = tsp_of(p)
+        if v is None:
+            return [definite('no transformed security parameter built from the card number reaches the cipher')] \
+                if p.outcome == 'return' else []
         st = p.store
         card = p.interp.user['card'].segs[0].src
         pin = p.interp.user['pin'].segs[0].src
@@ -63,7 +79,7 @@ def check(prog, res, tier):
         return fails
     res.add(runs_t.judge('C14.a', 'TSP = 11 rightmost PAN digits excluding the check digit ++ key index ++ leftmost 4 PIN digits (16 digits)',
                          func_where(tfi), "f'{rightmost_11}{key_table_index}{pin[:4]}'", chk_t,
-                         sample=lambda ps: [repr(p.value) for p in ps][:2]))
+                         sample=lambda ps: [repr(tsp_of(p)) for p in ps][:2], unknown_ok=lambda u: True))
 
     # ---- C14.b result width constants
     pfi = prog.func('pinblock.calculate_pvv')
@@ -128,7 +144,7 @@ def check(prog, res, tier):
 
     def chk_d(p, mode):
         if p.outcome != 'return':
-            return [definite(f'to_pvv raises {p.value!r}')]
+            return [definite(f'to_pvv raises {p.value!r}')] if p.outcome == 'raise' else []
         b = p.interp.user.get('pvv_call')
         if b is None:
             return [definite('to_pvv does not delegate to calculate_pvv')]
